@@ -24,15 +24,16 @@ Cfgs_dry == {Cfg("always", -1, TRUE)}
 
 P1 == {<<x>> : x \in FPU_small} \cup {<<x, y>> : x \in FPU_small, y \in FPU_small}
 P2 == {<<x>> : x \in FPU_small}
-Scenarios(cfgs, fails) ==
+Scenarios(cfgs, fails, seqs) ==
   {LET ser == <<[fps |-> p1, rev |-> FALSE], [fps |-> p2, rev |-> r2]>>
-   IN [tree0 |-> t, series |-> ser, cfg |-> c, failAt |-> k, assign |-> RankAssign(ser)] :
-      t \in Trees_small, p1 \in P1, p2 \in P2, r2 \in BOOLEAN, c \in cfgs, k \in fails}
+   IN [tree0 |-> t, series |-> ser, cfg |-> c, failAt |-> k, assign |-> RankAssign(ser), seq |-> sq] :
+      t \in Trees_small, p1 \in P1, p2 \in P2, r2 \in BOOLEAN, c \in cfgs, k \in fails, sq \in seqs}
 
 \* Universe <- one of these
-U_all   == Scenarios(Cfgs_small, {0})
-U_dry   == Scenarios(Cfgs_dry, {0})
-U_fault == {s \in Scenarios({Cfg("always", -1, FALSE)}, 0..FailUpTo) : s.tree0 = Tr(FS(<<0>>, "644"), Absent, FS(<<0>>, "644"), Absent) /\ Len(s.series[1].fps) = 2 /\ ~s.series[2].rev}
+U_all   == Scenarios(Cfgs_small, {0}, {FALSE})
+U_seq   == Scenarios(Cfgs_small, {0}, {TRUE})
+U_dry   == Scenarios(Cfgs_dry, {0}, BOOLEAN)
+U_fault == {s \in Scenarios({Cfg("always", -1, FALSE)}, 0..FailUpTo, BOOLEAN) : s.tree0 = Tr(FS(<<0>>, "644"), Absent, FS(<<0>>, "644"), Absent) /\ Len(s.series[1].fps) = 2 /\ ~s.series[2].rev}
 
 MCInit == \E s \in Universe : InitWith(s)
 MCNext == Step
